@@ -16,6 +16,12 @@ func runC05(c *Checker) {
 		"standard-library contracts: binary.BigEndian.UintN/PutUintN need N/8 bytes, Buffer.Next(n) needs n>=0 and returns min(n, Len()) bytes, Peek(n) returns n bytes or an error, Buffer.Len() is the unread count",
 		"hand arguments of assumed_safe.json")
 	B := newBounds(c.P)
+	for _, line := range B.applyPremises() {
+		c.assuming(line)
+		if strings.Contains(line, "NOT established") {
+			c.undecided("C05.premise", "caller contract", line, "a fact the bounds proofs of the callee rely on no longer follows from its call sites")
+		}
+	}
 	res := B.checkAll()
 	fnsSeen := map[string]bool{}
 	for _, r := range res {
